@@ -6,7 +6,7 @@ ID = 'C19'
 GEN = ['C19']
 LEAN_TARGETS = ['OtelVerif.Props.C19']
 THEOREMS = ['Otel.C19.' + t for t in (
-    'name_regex', 'unit_regex', 'validators_see_whole_view', 'rxMatch_iff_lang',
+    'name_regex', 'unit_regex', 'validators_see_whole_view', 'gen_literals', 'rxMatch_iff_lang',
     'validName_iff', 'validUnit_iff', 'validName_aswas_witness', 'invalid_gives_inert', 'inert_never_streams',
     'disabled_meter_never_streams',
     'pattern_all', 'pattern_literal_iff', 'pattern_matches_iff_lang', 'exact_iff',
